@@ -115,7 +115,7 @@ def _evaluate(e, env, bits=64):
         raise Uneval(op)
     if k == "len":
         return seq_len(e[1], env, bits)
-    if k == "call" and e[1].rsplit("::", 1)[-1] == "is_empty" and len(e[2]) == 1 and e[1].startswith(("std::", "core::", "alloc::", "<std::")):
+    if k == "call" and e[1].rsplit("::", 1)[-1] == "is_empty" and len(e[2]) == 1 and e[1].startswith(("std::", "core::", "alloc::", "<std::", "<alloc::", "<core::")):
         return int(seq_len(e[2][0], env, bits) == 0)
     if k == "select":
         c = evaluate(e[1], env, bits)
@@ -298,6 +298,10 @@ def seq_len(e, env, bits=64):
     k0 = sym.show(e)
     if isinstance(env.get(k0), list):
         return len(env[k0])
+    if e[0] == "call" and ("@fn:" + e[1].rsplit("::", 1)[-1]) in env:
+        v = evaluate(e, env, bits)
+        if isinstance(v, list):
+            return len(v)
     if e[0] == "select":
         return seq_len(e[2] if evaluate(e[1], env, bits) else e[3], env, bits)
     if e[0] == "variant":
@@ -323,8 +327,10 @@ def seq_len(e, env, bits=64):
         if nm in ("remainder", "into_remainder") and e[2] and e[2][0][0] == "call" and e[2][0][1].rsplit("::", 1)[-1] in ("chunks_exact", "chunks_exact_mut"):
             inner = e[2][0]
             return seq_len(inner[2][0], env, bits) % evaluate(inner[2][1], env, bits)
-        if nm in ("deref", "deref_mut", "as_slice", "by_ref", "as_ref", "borrow"):
+        if nm in ("deref", "deref_mut", "as_slice", "by_ref", "as_ref", "borrow", "into_boxed_slice", "into_vec", "to_vec", "as_mut_slice", "clone"):
             return seq_len(e[2][0], env, bits)
+        if nm == "from_elem" and len(e[2]) == 2:
+            return evaluate(e[2][1], env, bits)
     raise Uneval(key)
 
 
